@@ -17,6 +17,7 @@ From Coq Require Import List String Ascii Bool Arith Permutation Sorted.
 From Spil Require Import Base.Str Base.Dict Base.Outcome Regex.Re Conf.Conf Conf.Routing Conf.WF Sid.Sid
   Search.Unfold Search.FindList Search.Finders Search.FindListProofs Search.FindersProofs FS.Fs Data.Data Data.VersionProofs
   Search.GlobProofs Sid.SidProofs Path.UnambiguousDefs Search.TreeListDefs Search.TreeGlob Search.TreeListProofs Search.TreeJunk.
+From Spil Require Import Sid.TypingSpec Data.SidLevelDefs Search.ConstantsDefs Search.ConstantsLemmas Search.ConstantsProofs Search.ConstantsTree.
 From SpilGen Require Hamlet.
 Import ListNotations.
 Local Open Scope string_scope.
@@ -146,3 +147,94 @@ Example C11_hidden_name_differs :
   star_search qh (map s_string Eh) = Ok ["hamlet/a/char/.ophelia/model/v001/w/ma"; "hamlet/a/char/ophelia/model/v001/w/ma"].
 Proof. vm_compute. split; reflexivity. Qed.
 Print Assumptions C11_hidden_name_differs.
+
+(** ** levels that the configuration backs by constants are answered from those constants (Search/ConstantsProofs.v) *)
+
+(* FindInConstants on one typed search at its level: without "*" the Sid itself (existence by configuration); with "*" in the
+   last value only, the configured values its templates accept, in order; with "*" above, the same below every parent the
+   parent finder finds (or the literal value below each) *)
+Theorem C11_constants_star :
+  forall (c : Conf) (Ld : Loaded),
+  load c = Some Ld ->
+  wf_loadedb Ld = true ->
+  forall (F : fs) (id key : string) (values : list string) (pfd : option finder) (q : sid),
+  const_guard Ld key q ->
+  forallb const_value_okb values = true ->
+  let star := fstar Ld F (FConstants id key values pfd) in
+  let keys := map fst (s_fields q) in
+  (mem_c "*" (s_string q) = false -> star [q] = Ok [s_string q]) /\
+  (mem_c "*" (s_string q) = true ->
+   mem_c "*" (par_str (s_string q)) = false -> star [q] = Ok (expand Ld keys (s_string q) values)) /\
+  (mem_c "*" (par_str (s_string q)) = true ->
+   match pfd with
+   | Some pf =>
+       forall root rp : sid,
+       get_as Ld q key = Ok root ->
+       parent Ld root = Ok rp ->
+       typed_search Ld rp /\
+       s_string rp = par_str (s_string q) /\
+       s_fields rp = removelast (s_fields q) /\
+       (dget (s_fields q) key = Some "*" ->
+        (forall e : exn, find_g_sid Ld (fstar Ld F pf) rp = Raise e -> star [q] = Raise e) /\
+        (forall found : list string,
+         find_g_sid Ld (fstar Ld F pf) rp = Ok found ->
+         Forall (found_ok Ld (removelast keys)) found -> star [q] = Ok (flat_map (expand_below Ld keys values) found))) /\
+       (forall w : string,
+        dget (s_fields q) key = Some w ->
+        w <> "*" ->
+        mem_c ":" w = false ->
+        forall found : list string,
+        find_g_sid Ld (fstar Ld F pf) rp = Ok found ->
+        Forall plain_found found -> star [q] = Ok (map (fun p : string => child_str p w) found))
+   | None => star [q] = Raise SpilException
+   end).
+Proof. exact constants_star_spec. Qed.
+Print Assumptions C11_constants_star.
+
+(* ... with the path finder as parent, over a data set materialised as a tree: the accepted values below every matching member *)
+Theorem C11_constants_over_tree :
+  forall (c : Conf) (Ld : Loaded),
+  load c = Some Ld ->
+  wf_loadedb Ld = true ->
+  paths_unambiguousb Ld = true ->
+  forall (cfg : string) (E : list sid) (F : fs),
+  dataset_ok Ld cfg E F ->
+  forall (Rt : Routing) (s : string) (q : sid) (id key : string) (values : list string) (idp : string) 
+    (root rp : sid) (qs' : list sid) (l : list string),
+  unfold_search Ld s false false = Ok [q] ->
+  finder_for Rt (s_type q) = Some (FConstants id key values (Some (FPaths idp cfg))) ->
+  const_guard Ld key q ->
+  forallb const_value_okb values = true ->
+  mem_c ">" (s_string q) = false ->
+  mem_c "*" (par_str (s_string q)) = true ->
+  dget (s_fields q) key = Some "*" ->
+  get_as Ld q key = Ok root ->
+  parent Ld root = Ok rp ->
+  is_search Ld rp = true ->
+  unfold_search Ld (s_string rp) false false = Ok qs' ->
+  searches_ok Ld cfg qs' ->
+  pat_inj Ld cfg qs' ->
+  (forall q' : sid, In q' qs' -> map fst (s_fields q') = removelast (map fst (s_fields q))) ->
+  (forall e : sid, In e E -> plain_member e) ->
+  find_all Ld Rt F s = Ok l ->
+  forall r : string,
+  In r l <->
+  (exists (e q' : sid) (v : string),
+     In e E /\
+     In q' qs' /\
+     s_type e = s_type q' /\
+     glob_rel (s_string q') (s_string e) /\
+     In v values /\ accepted Ld (map fst (s_fields q)) (child_str (s_string e) v) /\ r = child_str (s_string e) v).
+Proof. exact find_all_constants_over_tree. Qed.
+Print Assumptions C11_constants_over_tree.
+
+(* instance: the state level of the live configuration is served by a constants finder whose parent is the path finder; on the
+   EMPTY tree a state Sid exists and a version has its states as children (existence by configuration) *)
+Example C11_constants_instance :
+  let x := mk "hamlet/a/char/ophelia/model/v001/w" in
+  match finder_for (match parse_routing Hamlet.raw with Some r => r | None => mkRouting [] [] false end) (s_type x) with
+  | Some (FConstants _ key values (Some (FPaths _ _))) => String.eqb key "state" && negb (match values with [] => true | _ => false end)
+  | _ => false
+  end = true.
+Proof. vm_compute. reflexivity. Qed.
+Print Assumptions C11_constants_instance.
